@@ -50,6 +50,30 @@ def gen_sep(rng, L, style=None):
     return s, style
 
 
+def back_to_back(acc, pot, pristine, sep, tail, speed, wit, label):
+    """A potential object has no memory: the same object queried at ONE separation for all directions, speeds and charge
+    signs in a row (what a handler pool does after a direction change) must answer exactly like a never-queried deep copy
+    asked once, and must leave the caller's vectors untouched."""
+    seq = [(0, speed), (1, speed), (2, speed), (0, 2.0 * speed), (2, speed), (2, speed), (1, 0.5 * speed)]
+    for d, sp in seq:
+        vel = [0.0] * 3
+        vel[d] = sp
+        a_sep, a_vel = list(sep), list(vel)
+        g = pot.derivative(a_vel, a_sep, *tail)
+        ref = copy.deepcopy(pristine).derivative(list(vel), list(sep), *tail)
+        acc.count("back_to_back_queries")
+        if a_sep != list(sep) or a_vel != vel:
+            acc.violation("C03:derivative-call-mutates-its-arguments",
+                          f"{label}: derivative(v={vel}, s={list(sep)}) left v={a_vel}, s={a_sep} in the caller's lists",
+                          dict(wit, b2b=[d, sp]))
+            return
+        if g != ref and not (g != g and ref != ref):
+            acc.violation("C03:result-depends-on-earlier-queries",
+                          f"{label}: queried right after another direction/speed at the same separation s={list(sep)}, "
+                          f"derivative(v={vel}) = {g!r}; a never-queried copy gives {ref!r}", dict(wit, b2b=[d, sp]))
+            return
+
+
 def check_radials(acc, rng):
     """Closed-form pair potentials: derivative = -U'(r) s_d / r * speed * (charges) vs finite differences of own U."""
     from vf.jf import init_setting
@@ -58,7 +82,8 @@ def check_radials(acc, rng):
     init_setting(3, [L] * 3)
     for kind in ("inverse_power", "lennard_jones", "displaced_even_power"):
         pot, mk, params = make_potential(rng, kind, L)
-        for _ in range(25):
+        pristine = copy.deepcopy(pot)
+        for it in range(25):
             d = rng.randrange(3)
             speed = rng.choice([1.0, 0.5, 3.0, 1e-3])
             c1, c2 = (rng.choice([1.0, -1.0, 0.41]), rng.choice([1.0, -0.82, 2.0])) if kind == "inverse_power" else (1.0, 1.0)
@@ -97,6 +122,8 @@ def check_radials(acc, rng):
             got3 = pot.derivative(*((v2, list(s)) + args[2:]))
             if abs(got3 - 2.5 * got) > 1e-12 * scale * 2.5:
                 acc.violation("C03:derivative-not-linear-in-speed", f"{kind}: D(v)={got!r}, D(2.5v)={got3!r}", wit)
+            if it % 5 == 0:
+                back_to_back(acc, pot, pristine, s, args[2:], speed, wit, f"{kind}{params}")
 
 
 def check_bending(acc, rng):
@@ -154,7 +181,8 @@ def check_c_bound_derivative(acc, rng):
     from jellyfysh.potential.inverse_power_coulomb_bounding_potential import InversePowerCoulombBoundingPotential
     k = rng.choice([1.5837, 531.2])
     pot = InversePowerCoulombBoundingPotential(prefactor=k)
-    for _ in range(30):
+    pristine = copy.deepcopy(pot)
+    for it in range(30):
         s, style = gen_sep(rng, L)
         r = math.sqrt(sum(c * c for c in s))
         if r < 1e-6 * L:
@@ -173,6 +201,9 @@ def check_c_bound_derivative(acc, rng):
             acc.violation("C03:derivative-differs-from-energy-gradient",
                           f"periodic 1/r bound: derivative(v={vel}, s={s}, c={c1, c2}) = {got!r}, q s_d/r^3 = {want!r}",
                           {"kind": "c_bound", "s": [x.hex() for x in s], "d": d, "L": L})
+        if it % 5 == 0:
+            back_to_back(acc, pot, pristine, s, (c1, c2), speed, {"kind": "c_bound", "s": [x.hex() for x in s], "L": L},
+                         "periodic 1/r bound")
 
 
 def check_merged(acc, rng, npoints, flavor):
@@ -188,6 +219,7 @@ def check_merged(acc, rng, npoints, flavor):
     e1 = Ewald(L, alpha=2.2, nreal=4, kmax=7)
     e2 = Ewald(L, alpha=4.0, nreal=3, kmax=13)
     pot = pots["default"]
+    pristine = copy.deepcopy(pot)
     # the C object through every way of duplicating it (deep copies are what taggers make, pickles are what dumps make)
     import dill
     clones = {"copy": copy.copy(pot), "deepcopy": copy.deepcopy(pot), "pickle": pickle.loads(pickle.dumps(pot)),
@@ -275,6 +307,8 @@ def check_merged(acc, rng, npoints, flavor):
         if abs(g2 + got) > 1e-12 * scale:
             acc.violation("C03:not-linear-in-charges-and-speed", f"{got!r} vs {g2!r}", wit)
         acc.count("metamorphic_relations_checked", 6)
+        if n % 4 == 1:
+            back_to_back(acc, pot, pristine, s, (c1, c2), speed, wit, f"merged-image Coulomb (L={L})")
     # box-length scaling: D_L(s) = D_1(s/L) / L^2
     if L != 1.0:
         s, _ = gen_sep(rng, L, "uniform")
